@@ -337,12 +337,12 @@ func (runInfo *runInfoStruct) invokeLetItemMap(expr *ast.ItemExpr, item reflect.
 		// make new map
 		item = reflect.MakeMap(item.Type())
 		item.SetMapIndex(runInfo.rv, value)
-		mapIndex := runInfo.rv
 		// assign new map
 		runInfo.rv = item
 		runInfo.expr = expr.Item
 		runInfo.invokeLetExpr()
-		runInfo.rv = item.MapIndex(mapIndex)
+		// the stored value (a NaN key cannot be looked up again)
+		runInfo.rv = value
 		return
 	}
 	item.SetMapIndex(runInfo.rv, value)
